@@ -15,7 +15,7 @@ from mc.core import fail
 
 PID = "C08"
 FAMILIES = ["trapezoidal", "simpson", "clenshaw_curtis", "leja", "gauss_legendre", "lagrange1", "lagrange2", "lagrange3",
-            "bspline1", "bspline3"]
+            "bspline1", "bspline3", "bspline5", "bspline7"]
 
 
 def _grid(name, a, b, boundary=True):
@@ -135,7 +135,7 @@ def run_case(case):
     val = np.asarray(g2.integrate(f, list(lv), np.array(s, dtype=float), np.array(e, dtype=float)), dtype=float).ravel()
     exact = np.array([np.prod([_mono_exact(ex[k], s[k], e[k]) for k in range(d)]) for ex in exps])
     scale = np.array([np.prod([max(abs(s[k]), abs(e[k]), 1.0) ** ex[k] * (e[k] - s[k]) for k in range(d)]) for ex in exps])
-    rtol = 1e-9 if name in ("leja", "lagrange1", "lagrange2", "lagrange3", "bspline1", "bspline3") else 1e-11
+    rtol = 1e-9 if name in ("leja", "lagrange1", "lagrange2", "lagrange3", "bspline1", "bspline3", "bspline5", "bspline7") else 1e-11
     bad = np.where(np.abs(val - exact) > rtol * scale)[0]
     if len(bad):
         i = int(bad[0])
